@@ -278,6 +278,9 @@ inductive DocVerdict where
   | raised (bullet : Name) (what : String)
 deriving Repr, DecidableEq, Inhabited
 
+def extOf (ty : Name) : Name :=
+  match opRows.find? (·.name == ty) with | some r => (if r.ext.isEmpty then n!"UNKNOWN" else r.ext) | none => n!"UNKNOWN"
+
 def extName (d : OpDesc) : Name := ((opRow d).map (·.ext)).getD []
 
 /-- the bullets report `r` lists for the operator with external name `ext` -/
@@ -301,17 +304,23 @@ def docWalk (P : Params) (d : OpDesc) : List Name → Nat → Option DocVerdict 
 
 def documented (r : Report) (d : OpDesc) : DocVerdict :=
   let ext := extName d
-  if ext.isEmpty then .silent else
+  -- the report speaks about TFLite operators: internal-only operator types and fused activations that no
+  -- TFLite file can carry (LUT, Clip, …) are outside what it says
+  if ext.isEmpty then .raised [] "no-external-name" else
+  if (match d.act with | some a => extOf a == n!"UNKNOWN" | none => false) then .raised [] "internal-activation" else
   match bulletsFor r ext, docParams r with
   | none, _ => .silent
   | some _, none => .raised [] "report-bounds-unreadable"
   | some bs, some P => docWalk P d bs 0 none
 
+def bulletId (x : Name) : Name := ((readBullet x).map (·.1)).getD (firstLine x)
+
+/-- `cpu <bullet index> <constraint the sentence is read as>` -/
 def showDocVerdict : DocVerdict → String
   | .silent => "silent"
   | .npu => "npu"
-  | .cpu i b => s!"cpu {i} {(ofName b).replace " " "_"}"
-  | .raised b w => s!"raised {(ofName b).replace " " "_"} {w}"
+  | .cpu i b => s!"cpu {i} {(ofName (bulletId b)).replace " " "_"}"
+  | .raised b w => s!"raised {(ofName (bulletId b)).replace " " "_"} {w}"
 
 /-- The property on one operator instance: predicted (documented) placement vs observed placement
     (`npu` / `cpu`).  A prediction that could not be computed judges nothing. -/
@@ -328,9 +337,6 @@ def docOf (name : Name) : Name :=
 
 def isSupportedType (ty : Name) : Bool := (opSet supOpSets n!"supported_operators").contains ty
 def hasSpecific (ty : Name) : Bool := supSpecificD.any (·.1 == ty) || semSpecificD.any (·.1 == ty)
-def extOf (ty : Name) : Name :=
-  match opRows.find? (·.name == ty) with | some r => (if r.ext.isEmpty then n!"UNKNOWN" else r.ext) | none => n!"UNKNOWN"
-
 def sameSet (a b : List Name) : Bool := a.all b.contains && b.all a.contains
 
 /-- summary table the generator must produce: TFLite operators whose internal type is supported -/
@@ -464,8 +470,6 @@ def reportProblems (r : Report) : List String :=
     3 generic part differs, 4 bullet only in the first, 5 bullet only in the second, 6 same bullets in
     another order, 7 section only in the second although the operator is in both tables -/
 abbrev Drift := Nat × Name × Name
-
-def bulletId (x : Name) : Name := ((readBullet x).map (·.1)).getD (firstLine x)
 
 def reportDrift (a b : Report) : List Drift :=
   (a.table.filterMap fun (n, _) => if b.table.any (·.1 == n) then none else some (0, n, [])) ++
